@@ -69,6 +69,47 @@ def u_energy(ctx, kind, form="const", phase="none", loss=False):
     ctx.check("peak-temp-dead", Implies(IsZero(vi), Eq(tp, ta + tr)), key="dead-component-peak-temp")
 
 
+def u_energy_mux(ctx, form="const", offs="00", phase="none"):
+    """PMux with two inputs: (vo, ii) from the mux's own laws on the input VECTOR, then the real _solv_pwr_loss called the way
+    solve() calls it - with the voltage of the selected input (of input 0 when none is live)."""
+    from ..ops import TRUE
+
+    P = params(ctx, "PMux", "M", form, nmux=2, rs_list=True)
+    try:
+        comp = construct("PMux", "M", P)
+    except ValueError:
+        ctx.note("constructor-rejected")
+        return
+    vi = [ctx.real("vi0"), ctx.real("vi1")]
+    io, ta = ctx.real("io"), ctx.real("ta")
+    ctx.assume(io >= 0)
+    for k, v in enumerate(vi):
+        ctx.nice(v, [12.0 - 7 * k, 0.0, -12.0 + 7 * k])
+    ctx.nice(io, [0.5, 0.3])
+    off = [c == "1" for c in offs]
+    pstate = {"off": off}
+    ph, conf, active, _ = phase_args(ctx, "PMux", P, phase)
+    pinp = comp._get_pri_inp(pstate, vi)
+    vo_, st = comp._solv_outp_volt(vi, 0.0, io, ph, conf, pstate)
+    ii_ = comp._solv_inp_curr(vi, 0.0, io, ph, conf, pstate)
+    vsel = vi[pinp] if pinp != -1 else vi[0]
+    p, l, e, tr, tp = comp._solv_pwr_loss(vsel, vo_, ii_, io, ta, ph, conf)
+    ctx.cover("evaluated")
+    if pinp == -1:
+        # no live input: solve() hands over input 0's voltage; an input that is merely switched off upstream may still be
+        # non-zero there, so only the all-zero case is the dead case of the accounting
+        ctx.check("dead-mux-accounts-nothing", Implies(IsZero(vsel), And(IsZero(p), IsZero(l))))
+        return
+    rs = P["rs"][pinp]
+    ok = spec.keeps_polarity("PMux", P, vsel, io, rs_sel=rs)
+    ctx.check("power=vin*iin", Eq(p, Abs(vsel) * ii_))
+    ctx.check("power-minus-loss=handed-on", Implies(ok, Eq(p - l, Abs(vo_) * io)))
+    ctx.check("loss-range", Implies(ok, And(Ge(l, 0.0), Le(l, p))))
+    ctx.check("efficiency", Implies(And(ok, Gt(p, 0.0)), And(Eq(e * p, 100.0 * (p - l)), Ge(e, 0.0), Le(e, 100.0))))
+    ctx.check("temp-rise", Eq(tr, Abs(P.get("rt", 0.0)) * l))
+    ctx.check("peak-temp", Eq(tp, ta + tr))
+
+
 META = {
     "explanation": "Bounded symbolic execution of the real _solv_pwr_loss / _get_eff bodies with (vo, ii) produced by the same "
                    "component's own laws, and of the real solve() row assembly and pandas aggregation on an arbitrary converged "
@@ -102,6 +143,10 @@ def instances(tier):
                                     weight=5 if "t2" in form else (30 if form == "t1x3" else 1), time_limit=3000 if form == "t1x3" else None))
                 if kind in spec.LOADS:  # the same load configured as a loss (powered, dead, switched off)
                     out.append(Instance("C02", "c02:u_energy", dict(kind=kind, form=form, phase=ph, loss=True), cover=["evaluated"]))
+    for form in ("const", "t1x2", "opaque") + (("ct2x2x2",) if tier == "thorough" else ()):  # (exact 2-D: ~4 min per instance)
+        for offs in ("00", "10"):
+            for ph in (("none", "unlisted") if form == "const" else ("none",)):
+                out.append(Instance("C02", "c02:u_energy_mux", dict(form=form, offs=offs, phase=ph), cover=["evaluated"], weight=5))
     from ..shapes import curated
     for sid, shape in curated().items():
         if sid in ("neg-src-rs",):
